@@ -161,13 +161,16 @@ Example zero_nonvacuous :
 Proof. vm_compute. repeat split. eexists _, _. repeat split. Qed.
 
 Example all_or_nothing_nonvacuous :
-  (* limit 2 (2 per 10 ns) is exhausted: the request is refused by it after limit 1 was charged *)
+  (* limit 2 (2 per 10 ns) is exhausted: the request is refused by it after limit 1 was charged;
+     the state of limit 1 differs (it was advanced) but holds the same credit at any later time *)
   let s := snd (xtake ex_sys (ex_t0 + 999) [] [(2, 0)]%N 1) in
   let r := xtake s (ex_t0 + 1500) [] [(1, 0); (2, 0); (2, 0); (2, 0)]%N 1 in
-  fst r = (false, 2%N) /\
-  (exists l l', has_bucket s (1, 0)%N l /\ has_bucket (snd r) (1, 0)%N l' /\ l <> l' /\ xk l = XNorm /\ lim_ok l
-                /\ pot l' (ex_t0 + 5000) = pot l (ex_t0 + 5000)).
-Proof. vm_compute. split; [reflexivity|]. eexists _, _. repeat split; try (eexists; reflexivity); discriminate. Qed.
+  let before := option_map fst (aget key_eqb (1, 0)%N (s_b s)) in
+  let after := option_map fst (aget key_eqb (1, 0)%N (s_b (snd r))) in
+  fst r = (false, 2%N) /\ before <> None /\ before <> after /\
+  option_map xk before = Some XNorm /\
+  option_map (fun l => pot l (ex_t0 + 5000)) after = option_map (fun l => pot l (ex_t0 + 5000)) before.
+Proof. vm_compute. repeat split; try discriminate. Qed.
 
 Example isolation_nonvacuous :
   touches (2, 0)%N (ITake [] [(1, 0); (1, 1)]%N 1) = false /\
@@ -177,9 +180,14 @@ Proof. vm_compute. repeat split; discriminate. Qed.
 
 Example reachable_nonvacuous : good 0 (sys0 (L:=xlim)) /\ good (ex_t0 + 999) ex_sys.
 Proof.
-  split; [split; constructor|].
-  unfold ex_sys. cbn [xrun].
-  repeat (eapply reachable_states_are_good; [| | |]); try (split; constructor); try (vm_compute; try split; discriminate); try exact I.
+  assert (G0 : good 0 (sys0 (L:=xlim))) by (split; constructor).
+  split; [exact G0|]. unfold ex_sys. cbn [xrun].
+  assert (W1 : wf_cfg (mkBS 3000 3 0)) by (unfold wf_cfg, capmax; cbn; lia).
+  assert (W2 : wf_cfg (mkBS 10 2 0)) by (unfold wf_cfg, capmax; cbn; lia).
+  apply (reachable_states_are_good _ ex_t0 (ex_t0 + 999)); [|unfold ex_t0; lia|unfold ex_t0; lia|exact I].
+  apply (reachable_states_are_good _ ex_t0 ex_t0); [|lia|unfold ex_t0; lia|exact I].
+  apply (reachable_states_are_good _ ex_t0 ex_t0); [|lia|unfold ex_t0; lia|exact W2].
+  apply (reachable_states_are_good _ 0 ex_t0); [exact G0|unfold ex_t0; lia|unfold ex_t0; lia|exact W1].
 Qed.
 
 Print Assumptions window_bound.
